@@ -441,4 +441,41 @@ theorem endCut_border_bottom (f : Frag) (h : f.st.clone = false) (hc : EndCut f)
   · rw [h] at hc; cases hc
   · simp only [Geo.borderBoxY, Geo.borderHeight, Geo.contentBoxY, hpb, hbb]; grind
 
+/-! ### boxes through which margins collapse take no room and never need a page of their own
+
+`block_container_layout` declares a box *collapsed through* when it has no in-flow child, its `height` is `auto`
+**or 0**, and it has no min-height, padding or border; `_in_flow_layout` then skips the page-overflow test for it
+and leaves `position_y` where it was. -/
+
+/-- **Exactly which boxes are collapsed through** (the tail of `block_container_layout`), whatever the page
+geometry, the margins and the resume state. -/
+theorem finishTail_through_iff (c : Ctx) (st : PStyle) (b : BoxSt) (bs : Rat) (cwc dbd : Bool)
+    (resume : Option Resume) (posY : Rat) (adjL cur : List Rat) (curIsL hasKids : Bool) :
+    (finishTail c st b bs cwc dbd resume posY adjL cur curIsL hasKids).through = true ↔
+      (hasKids = false ∧ (st.height = none ∨ st.height = some 0) ∧ st.minH = 0 ∧
+        b.bt = 0 ∧ b.pt = 0 ∧ b.bb = 0 ∧ b.pb = 0) := by
+  unfold finishTail
+  cases hasKids <;> cases cwc <;> simp <;> grind
+
+/-- **A collapsed-through child is always kept, and takes no room**: the first pass keeps its fragment without
+looking at the page bottom and hands the next sibling the same `position_y`. -/
+theorem firstPass_through_kept (c : Ctx) (bs : Rat) (pienc : Bool) (posY : Rat) (r : LayoutResult) (f : Frag)
+    (hf : r.frag = some f) (ht : r.collapsingThrough = true) :
+    firstPass c bs pienc posY r = .keep (some f) posY := by
+  unfold firstPass
+  simp [hf, ht]
+
+/-! Regression documents for the `height: 0` spelling (100px pages, nine 10px lines, then an empty box with
+`margin-top: 20px`): with `height: 0` as with `height: auto` everything is on one page and the empty box sits at
+the bottom of the text; an empty box with `padding-top: 1px` instead is not collapsed through and goes to page 2. -/
+def spacerDoc (st : PStyle) : Doc :=
+  { pageH := 100, rootLtr := true,
+    root := .block 0 { plainSt with isRoot := true }
+      [.block 1 plainSt [.para 2 9 10 plainSt, .block 3 st []]] }
+
+example : ((paginate (spacerDoc { plainSt with height := some 0, mt := 20 }) 10).map List.length,
+    (paginate (spacerDoc { plainSt with mt := 20 }) 10).map List.length,
+    (paginate (spacerDoc { plainSt with mt := 20, pt := 1 }) 10).map List.length) = (some 1, some 1, some 2) := by
+  decide +kernel
+
 end Wp.C03Geo
